@@ -95,6 +95,133 @@ theorem sortBad_of_sortModel (w : World) (g : Nat) (ht : Sort.WF (treeOf w g)) (
       rw [ih (fun p hp => hl p (List.mem_cons_of_mem _ hp))]
   exact key r (sortModel_perm_world w g ht r hr)
 
+/-! ### the exact result of an accepted sort
+
+`Graph.sort` ends with `graph.extend(reversed(sorted_nodes))` for every graph of the nest (`sortApply`).  On a
+well-formed world, with one entry per graph and every entry a permutation of that graph's current sequence (what
+`C12_perm` gives for the kernel's own tree), the node sequence each graph is left with IS its entry: every `append`
+unlinks the node and links it at the end (`Sort.relink`, C12's `C12_relink`), re-extending one graph does not touch the
+sequence of another one, and the nodes keep the graph they name. -/
+
+open IrVerif.LinkedSet in
+/-- `Graph.extend(xs)` on the abstract node sequence is C12's `relink` (both are C11's `Spec.extend`) -/
+theorem foldl_linkAfter_eq_relink (L xs : List Nat) (hL : L.Nodup) :
+    xs.foldl (fun l v => linkAfter l l.getLast? v) L = Sort.relink L xs := by
+  rw [← spec_extend .fwd xs L .done]
+  exact Sort.spec_extend_L ⟨L, .fwd, .done⟩ hL xs
+
+/-- what an accepted `extend` on graph `g` keeps when its nodes already are members of `g`: every naming fact
+(`NameStep`: outputs, the graph every node names, locked tensors, names only get set) and the node sequence of every
+other graph -/
+structure RelinkStep (g : Nat) (w w' : World) : Prop where
+  ns : NameStep w w'
+  others : ∀ h, h ≠ g → (w'.gr h).nodes = (w.gr h).nodes
+
+theorem RelinkStep.refl (g : Nat) (w : World) : RelinkStep g w w := ⟨NameStep.refl w, fun _ _ => rfl⟩
+
+theorem RelinkStep.trans {g : Nat} {a b c : World} (h1 : RelinkStep g a b) (h2 : RelinkStep g b c) :
+    RelinkStep g a c :=
+  ⟨h1.ns.trans h2.ns, fun h hh => (h2.others h hh).trans (h1.others h hh)⟩
+
+/-- one accepted node that is already a member of `g`: names, then the re-link -/
+theorem link_relinkStep (w : World) (hw : WF w) (g : Nat) (anchor : Option Nat) (n : Nat)
+    (hn : (w.node n).graph = some g) (ha : nodeAcceptable w g n = true) :
+    RelinkStep g w (nodeLink (assignNames w g n) g anchor n) := by
+  have hn0 := registerNode_nameStep w g n
+  have hacc := ha
+  simp only [nodeAcceptable, Bool.and_eq_true, List.all_eq_true] at hacc
+  obtain ⟨_, hs, _⟩ := registerOutputs_late g (w.node n).outputs (registerNode w g n) (registerNode_WF w g n hw)
+    (fun o ho => hn0.namable o (hacc.2 o ho))
+  have hstep : NameStep w (assignNames w g n) := hn0.trans hs
+  have hseq := assignNames_sameSeq w g n
+  have hgn : ((assignNames w g n).node n).graph = some g := by rw [hstep.graph]; exact hn
+  obtain ⟨ho, hlk, hnm⟩ := nodeLink_nameStep_other (assignNames w g n) g anchor n
+  have hadd : nodeAddable (assignNames w g n) g n = true := by simp [nodeAddable, hgn]
+  refine ⟨hstep.trans ⟨ho, ?_, hlk, fun v hv => by rw [hnm]; exact hv⟩, ?_⟩
+  · intro m
+    unfold nodeLink
+    simp only [hadd, if_true]
+    by_cases hm : m = n
+    · subst hm; simp [hgn]
+    · simp [hm]
+  · intro h hh
+    rw [← hseq.1 h]
+    unfold nodeLink
+    simp only [hadd, if_true]
+    simp [hh]
+
+/-- `Graph.extend(ns)` with every node already a member of `g` -/
+theorem extendMut_relinkStep (g : Nat) : ∀ (ns : List Nat) (w : World), WF w →
+    (∀ n ∈ ns, (w.node n).graph = some g) → (∀ n ∈ ns, nodeAcceptable w g n = true) →
+    RelinkStep g w (extendMut w g ns)
+  | [], w, _, _, _ => RelinkStep.refl g w
+  | n :: ns, w, hw, hg, ha => by
+    have h1 := link_relinkStep w hw g (w.gr g).nodes.getLast? n (hg n List.mem_cons_self) (ha n List.mem_cons_self)
+    obtain ⟨_, hw1, hacc⟩ := link_late w hw g (w.gr g).nodes.getLast? n (ha n List.mem_cons_self)
+    have h2 := extendMut_relinkStep g ns _ hw1
+      (fun m hm => by rw [h1.ns.graph]; exact hg m (List.mem_cons_of_mem _ hm))
+      (fun m hm => hacc m (ha m (List.mem_cons_of_mem _ hm)))
+    simp only [extendMut, List.foldl_cons] at h2 ⊢
+    exact h1.trans h2
+
+/-- re-extending a graph with a permutation of its own node sequence leaves exactly that permutation -/
+theorem nodes_extendMut_perm (w : World) (hw : WF w) (g : Nat) (ns : List Nat)
+    (hp : ns.Perm (w.gr g).nodes) : ((extendMut w g ns).gr g).nodes = ns := by
+  have hmem : ∀ n ∈ ns, (w.node n).graph = some g := fun n hn => (hw.node.mem n g).2 (hp.mem_iff.1 hn)
+  rw [nodes_extendMut g ns w (fun n hn => by simp [nodeAddable, hmem n hn]),
+    foldl_linkAfter_eq_relink _ _ (hw.node.nodup g)]
+  exact Sort.C12_relink _ _ (hw.node.nodup g) hp
+
+/-- **the re-linking loop of `Graph.sort` is exact**: one entry per graph, each a permutation of that graph's
+sequence with every node acceptable ⟹ afterwards every listed graph has exactly its entry as node sequence, every
+other graph keeps its sequence, and only naming facts changed besides -/
+theorem sortApply_exact : ∀ (r : List (Nat × List Nat)) (w : World), WF w → (r.map Prod.fst).Nodup →
+    (∀ p ∈ r, p.2.Perm (w.gr p.1).nodes) → (∀ p ∈ r, ∀ n ∈ p.2, nodeAcceptable w p.1 n = true) →
+    (∀ p ∈ r, ((sortApply w r).gr p.1).nodes = p.2) ∧
+    (∀ h, h ∉ r.map Prod.fst → ((sortApply w r).gr h).nodes = (w.gr h).nodes) ∧
+    NameStep w (sortApply w r)
+  | [], w, _, _, _, _ => ⟨fun _ hp => (by cases hp), fun _ _ => rfl, NameStep.refl w⟩
+  | p :: rest, w, hw, hnd, hperm, hacc => by
+    have hp := hperm p List.mem_cons_self
+    have ha := hacc p List.mem_cons_self
+    have hcond : (p.2.isPerm (w.gr p.1).nodes && p.2.all (nodeAcceptable w p.1)) = true := by
+      rw [Bool.and_eq_true]
+      exact ⟨List.isPerm_iff.2 hp, List.all_eq_true.2 ha⟩
+    have hunf : sortApply w (p :: rest) = sortApply (extendMut w p.1 p.2) rest := by
+      simp only [sortApply, List.foldl_cons, hcond, if_true]
+    have hmem : ∀ n ∈ p.2, (w.node n).graph = some p.1 := fun n hn => (hw.node.mem n p.1).2 (hp.mem_iff.1 hn)
+    have hstep := extendMut_relinkStep p.1 p.2 w hw hmem ha
+    have hw1 := extendMut_WF w p.1 p.2 hw
+    have hself := nodes_extendMut_perm w hw p.1 p.2 hp
+    rw [List.map_cons, List.nodup_cons] at hnd
+    have hne : ∀ q ∈ rest, q.1 ≠ p.1 := fun q hq e => hnd.1 (e ▸ List.mem_map_of_mem hq)
+    obtain ⟨i1, i2, i3⟩ := sortApply_exact rest (extendMut w p.1 p.2) hw1 hnd.2
+      (fun q hq => by rw [hstep.others q.1 (hne q hq)]; exact hperm q (List.mem_cons_of_mem _ hq))
+      (fun q hq n hn => hstep.ns.acceptable q.1 n (hacc q (List.mem_cons_of_mem _ hq) n hn))
+    rw [hunf]
+    refine ⟨?_, ?_, hstep.ns.trans i3⟩
+    · intro q hq
+      rcases List.mem_cons.1 hq with rfl | hq
+      · rw [i2 _ hnd.1]; exact hself
+      · exact i1 q hq
+    · intro h hh
+      rw [List.map_cons, List.mem_cons, not_or] at hh
+      rw [i2 h hh.2]; exact hstep.others h hh.1
+
+/-- the result of C12's sort model has exactly one entry per graph of the tree, in the tree's order -/
+theorem sortModel_graph_ids (t : Sort.MGraph) (ht : Sort.WF t) (r : List (Nat × List Nat))
+    (hr : Sort.sortModel t = some r) : r.map Prod.fst = (Sort.allGraphs t).map Prod.fst := by
+  have h := Sort.C12_perm t ht r hr
+  have key : ∀ (l r : List (Nat × List Nat)),
+      List.Forall₂ (fun old new => new.1 = old.1 ∧ new.2.Perm old.2) l r → r.map Prod.fst = l.map Prod.fst := by
+    intro l r h
+    induction h with
+    | nil => rfl
+    | cons hab _ ih => simp only [List.map_cons, hab.1, ih]
+  rw [key _ _ h]
+  simp only [Sort.graphsOf, List.map_map]
+  rfl
+
 /-! ### attribute edits -/
 
 /-- `w'` differs from `w` at most in the attribute dicts of nodes -/
